@@ -12,7 +12,7 @@ DECLS = [('UTIM', 'Unix Time', 'sec'), ('DATE', 'Date', 'ddmmyy'), ('TIME', 'Tim
          ('WAC', 'Wits Activity Code', 'unitless'), ('BDIA', 'Bit  Diameter', 'inch'), ('C1', 'Methane (C1)', 'ppm')]
 PERMS = [(0, 1, 2, 3, 4, 5), (5, 4, 3, 2, 1, 0), (3, 0, 4, 1, 5, 2), (2, 5, 1, 4, 0, 3)]
 HEADERS = [('WAC',), ('WAC', 'BDIA', 'C1'), ('C1', 'WAC'), ('BDIA',)]
-YEARS = [0, 6, 50, 51, 75, 99]
+YEARS = [0, 6, 9, 50, 51, 99]
 MONTHS = ['Jan', 'Feb', 'Mar', 'Apr', 'May', 'Jun', 'Jul', 'Aug', 'Sep', 'Oct', 'Nov', 'Dec']
 VALUES = ['0', '8.50', '-1.25e3', '12']
 
@@ -33,7 +33,9 @@ def _text(perm, hdr, nrows, tab, style_b, yy, mon, corrupt, where):
     for r in range(nrows):
         ut = 1165665017 + 3600 * r
         day = 9 + r
-        date = ('%d-%s-%02d' % (day, MONTHS[mon], YEARS[yy])) if style_b else ('%02d%s%02d' % (day, MONTHS[mon], YEARS[yy]))
+        # the year may be written without a leading zero (5Oct9 = 5 October 2009): done for the odd months
+        ytxt = ('%d' if mon % 2 == 1 else '%02d') % YEARS[yy]
+        date = ('%d-%s-%s' % (day, MONTHS[mon], ytxt)) if style_b else ('%02d%s%s' % (day, MONTHS[mon], ytxt))
         tm = '11-%02d-17' % (50 + r)
         vals = [str(ut), date, tm] + [VALUES[(r + k) % len(VALUES)] for k in range(len(HEADERS[hdr]))]
         year = YEARS[yy] + (1900 if YEARS[yy] > 50 else 2000)
